@@ -18,8 +18,33 @@
   `decompress (deflate lvl x) k = x` (`x.take k` under the `max_length = k > 0` of the API).
 
   Hypotheses common to the view theorems: `FileOk` (class 32/64, the Spec's compression header,
-  ELFCOMPRESS_ZLIB named, no phantom bytes), no relocation section applies to a debug section
-  (`NoReloc`, part of `Holds`; relocation is C08's subject), sizes fit their header fields.
+  ELFCOMPRESS_ZLIB named, no phantom bytes), sizes fit their header fields.  The first group of
+  theorems (`view_of_content` … `view_with_sup_file`) is about files in which no relocation section
+  applies to a debug section (`NoReloc`, part of `Holds`).  The group "relocations on debug sections"
+  lifts that restriction (`view_of_content_relocated`, `view_relocated_invariant`, `view_unrelocated`,
+  `view_no_reloc_section`, `reloc_rejected_rejects_file`, whole-file `view_of_file_relocated`,
+  `view_relocated_invariant_file`, `view_of_file_unrelocated`): `HoldsR`/`HoldsRD` describe the
+  relocation section and the symbol table it links to with C08's Spec (`RelEntry`, `applyStd`), and
+  the view is the RELOCATED logical content, identically for plain / gABI / `.zdebug` storage
+  (for `.zdebug` since fixes/C11-zdebug-relocate-after-decompress.patch).  `HoldsD` is the special case
+  `liftContent` (`holdsD_is_special_case`).
+
+  LINKS COMPOSED: `view_composed_links` (debug link → debug file in any encodings → its
+  `.gnu_debugaltlink`/`.debug_sup` → supplementary file in any encodings), with
+  `view_debuglink_ok_desc`, `debuglink_bad_crc_rejected_desc`, `view_with_sup_file_relocated`.
+
+  THE CHECKSUM: `_file_crc32` folds `binascii.crc32(chunk, running)` over 4096-byte reads
+  (Model/DwarfViewCrc.lean).  `file_crc32_chunked`: under the streaming law `CrcStreaming` alone the
+  fold is the one-shot CRC for every chunk size; `debuglink_check_is_oneshot_crc` ties it to the
+  `hsum` hypothesis of the debug-link theorems; `file_crc32_spec`: for the CRC-32 of the GDB manual
+  (Spec/ContainerCrc.lean) the law holds.
+
+  Still correspondence-only: at the level of whole files, symbol tables whose entries carry more
+  than `st_value` (`HoldsRD` uses C08's value-only symbol table encoder; the section-table theorems
+  ask only `SymValues`: symbol `i` parses with `st_value = syms[i]`; real objects are covered by the
+  `reloc`/`relobj` harness streams), a `sh_link` that does not designate a symbol table, relocations
+  on phantom-byte files, relocation entries outside `WFApply`, malformed containers other than wrong
+  sizes / CRC.
 
   WHOLE FILES.  The section-table theorems are composed with C01 (`open_exact`, `sections_exact` and
   their `wfZ` variants for SHF_COMPRESSED sections) in the second half of the file: `view_of_file`,
@@ -32,8 +57,14 @@ import PyElf.Model.DwarfView
 import PyElf.Spec.Container
 import PyElf.Proofs.Container
 import PyElf.Proofs.ContainerFile
+import PyElf.Proofs.ContainerReads
+import PyElf.Proofs.ContainerReloc
+import PyElf.Proofs.ContainerRelocFile
+import PyElf.Proofs.ContainerLinks
+import PyElf.Proofs.ContainerCrc
 import PyElf.Props.TieC11
 import PyElf.Props.C01
+import PyElf.Props.C08
 namespace PyElf.Props.C11
 open PyElf PyElf.Model PyElf.Model.C11 PyElf.Spec.C11 PyElf.Proofs.C11
 
@@ -539,6 +570,431 @@ theorem view_with_sup_file {P : Params} {deflate : Nat → Bytes → Bytes} (hP 
       (holdsEnc_of_desc hLS hoS hopS.hdata hopS.hcls hopS.hle hhS).holds pS (by rw [hopS.hle]; exact hslS),
     hop.hle, hop.hcls, hopS.hle, hopS.hcls]
 
+
+/-! ## relocations on debug sections, in every container encoding
+
+  `ContentR` (Proofs/ContainerReloc.lean) is the logical content WITH relocations: per keyword the
+  bytes the producer wrote, the address, and — when a relocation section targets the section — its
+  flavour, entries and the values of the symbols it refers to (C08's `RelEntry`, `Spec.applyStd`).
+  `relocatedContent a c relocate cr` is what the standards say a consumer must see: the psABI
+  formulas folded over the entries when relocation is asked for, the bytes as written otherwise.
+
+  `HoldsR P deflate f secs relocate cfg a cr allowed` is `HoldsEnc` with `NoReloc` replaced by the
+  description of the relocation section: the first RelocationSection named `.rel<name>`/`.rela<name>`
+  holds the Spec encoding of the entries and links to a symbol table section holding the symbol
+  values (`RelocStored`), the entries are in the domain of C08's theorems (`WFApply`) and none is
+  rejected.  `RelocEnv` says the file's struct bundle is the Spec's and names the machine.
+
+  The relocations are applied to the LOGICAL content whatever the storage: for the legacy `.zdebug`
+  format this holds since the fix `fixes/C11-zdebug-relocate-after-decompress.patch` (the code used
+  to relocate the still-compressed bytes). -/
+
+/-- MAIN THEOREM WITH RELOCATIONS.  Whatever mix of encodings stores it, the view of a file is its
+    content with the relocations applied as the psABI prescribes (`relocate_dwarf_sections=True`),
+    or as written (`False`): bytes, their length, the address per keyword. -/
+theorem view_of_content_relocated {P : Params} {deflate : Nat → Bytes → Bytes} {f : ElfFile} (hf : FileOk P deflate f)
+    {cfg : ElfCfg} {a : Spec.Arch} (hr : RelocEnv P f cfg a)
+    (again : Option Loader → Bytes → Bool → Bool → V DwarfInfo) (loader : Option Loader)
+    (secs : List Sec) (relocate followLinks : Bool) (cr : ContentR) (m : Val) {allowed : Enc → Prop}
+    (hm : f.header.getField "e_machine" = .ok m)
+    (hh : HoldsR P deflate f secs relocate cfg a cr allowed)
+    (hlink : linkTarget secs loader followLinks = none)
+    (hsup : followLinks = false ∨
+      ((∃ DS, P.dwarfStructsFor ⟨f.le, 32, f.cls / 8, 2⟩ = some DS) ∧
+        cr "debug_sup_sec" = none ∧ cr "gnu_debugaltlink_sec" = none)) :
+    (getDwarfInfoCore P again loader f secs relocate followLinks).map DwarfInfo.view
+      = .ok (.mk f.le (f.cls / 8) (P.machineArchOf m)
+          (contentView P.names (relocatedContent a (Proofs.Reloc.relCfgOf cfg) relocate cr)) none) := by
+  rw [core_unlinked P again loader f secs relocate followLinks hlink]
+  refine ownInfo_reads again loader secs relocate followLinks _ m hm (hh.reads hf hr) ?_
+  rcases hsup with h | ⟨h0, h1, h2⟩
+  · exact Or.inl h
+  · exact Or.inr ⟨h0, by simp [relocatedContent, h1], by simp [relocatedContent, h2]⟩
+
+/-- identical for plain / gABI / `.zdebug` storage: two files of the same configuration and machine
+    that store the same content-with-relocations have the same view, whatever their encodings
+    (`allowed₁`, `allowed₂` arbitrary: e.g. `Enc.isPlain` against `Enc.isPlainOrZdebug`) -/
+theorem view_relocated_invariant {P : Params} {deflate : Nat → Bytes → Bytes} {f₁ f₂ : ElfFile}
+    (hf₁ : FileOk P deflate f₁) (hf₂ : FileOk P deflate f₂)
+    {cfg₁ cfg₂ : ElfCfg} {a : Spec.Arch} (hr₁ : RelocEnv P f₁ cfg₁ a) (hr₂ : RelocEnv P f₂ cfg₂ a)
+    (again₁ again₂ : Option Loader → Bytes → Bool → Bool → V DwarfInfo) (loader₁ loader₂ : Option Loader)
+    (secs₁ secs₂ : List Sec) (relocate followLinks : Bool) (cr : ContentR) (m : Val)
+    (hle : f₁.le = f₂.le) (hcls : f₁.cls = f₂.cls) (hmc : cfg₁.mclass = cfg₂.mclass)
+    (hm₁ : f₁.header.getField "e_machine" = .ok m) (hm₂ : f₂.header.getField "e_machine" = .ok m)
+    {allowed₁ allowed₂ : Enc → Prop}
+    (hh₁ : HoldsR P deflate f₁ secs₁ relocate cfg₁ a cr allowed₁)
+    (hh₂ : HoldsR P deflate f₂ secs₂ relocate cfg₂ a cr allowed₂)
+    (hl₁ : linkTarget secs₁ loader₁ followLinks = none) (hl₂ : linkTarget secs₂ loader₂ followLinks = none)
+    (hsup : followLinks = false ∨
+      ((∃ DS, P.dwarfStructsFor ⟨f₁.le, 32, f₁.cls / 8, 2⟩ = some DS) ∧
+        cr "debug_sup_sec" = none ∧ cr "gnu_debugaltlink_sec" = none)) :
+    (getDwarfInfoCore P again₁ loader₁ f₁ secs₁ relocate followLinks).map DwarfInfo.view
+      = (getDwarfInfoCore P again₂ loader₂ f₂ secs₂ relocate followLinks).map DwarfInfo.view := by
+  have hc : Proofs.Reloc.relCfgOf cfg₁ = Proofs.Reloc.relCfgOf cfg₂ :=
+    relCfgOf_congr cfg₁ cfg₂ (by rw [← hr₁.hfle, ← hr₂.hfle, hle]) (by rw [← hr₁.hfcls, ← hr₂.hfcls, hcls]) hmc
+  rw [view_of_content_relocated hf₁ hr₁ again₁ loader₁ secs₁ relocate followLinks cr m hm₁ hh₁ hl₁ hsup,
+      view_of_content_relocated hf₂ hr₂ again₂ loader₂ secs₂ relocate followLinks cr m hm₂ hh₂ hl₂
+        (by rw [← hle, ← hcls]; exact hsup),
+      hle, hcls, hc]
+
+/-- `relocate_dwarf_sections=False`: the view is the content as written, whatever relocation
+    sections the file has (nothing is asked about them) -/
+theorem view_unrelocated {P : Params} {deflate : Nat → Bytes → Bytes} {f : ElfFile} (hf : FileOk P deflate f)
+    {cfg : ElfCfg} {a : Spec.Arch} (hr : RelocEnv P f cfg a)
+    (again : Option Loader → Bytes → Bool → Bool → V DwarfInfo) (loader : Option Loader)
+    (secs : List Sec) (followLinks : Bool) (cr : ContentR) (m : Val) {allowed : Enc → Prop}
+    (hm : f.header.getField "e_machine" = .ok m)
+    (hh : HoldsR P deflate f secs false cfg a cr allowed)
+    (hlink : linkTarget secs loader followLinks = none)
+    (hsup : followLinks = false ∨
+      ((∃ DS, P.dwarfStructsFor ⟨f.le, 32, f.cls / 8, 2⟩ = some DS) ∧
+        cr "debug_sup_sec" = none ∧ cr "gnu_debugaltlink_sec" = none)) :
+    (getDwarfInfoCore P again loader f secs false followLinks).map DwarfInfo.view
+      = .ok (.mk f.le (f.cls / 8) (P.machineArchOf m) (contentView P.names (unrelocated cr)) none) := by
+  rw [view_of_content_relocated hf hr again loader secs false followLinks cr m hm hh hlink hsup, relocatedContent_false]
+
+/-- no relocation section targets any debug section: the view is the content as written, with
+    `relocate_dwarf_sections` on or off -/
+theorem view_no_reloc_section {P : Params} {deflate : Nat → Bytes → Bytes} {f : ElfFile} (hf : FileOk P deflate f)
+    {cfg : ElfCfg} {a : Spec.Arch} (hr : RelocEnv P f cfg a)
+    (again : Option Loader → Bytes → Bool → Bool → V DwarfInfo) (loader : Option Loader)
+    (secs : List Sec) (relocate followLinks : Bool) (cr : ContentR) (m : Val) {allowed : Enc → Prop}
+    (hnone : ∀ k p addr r, cr k = some (p, addr, r) → r = none)
+    (hm : f.header.getField "e_machine" = .ok m)
+    (hh : HoldsR P deflate f secs relocate cfg a cr allowed)
+    (hlink : linkTarget secs loader followLinks = none)
+    (hsup : followLinks = false ∨
+      ((∃ DS, P.dwarfStructsFor ⟨f.le, 32, f.cls / 8, 2⟩ = some DS) ∧
+        cr "debug_sup_sec" = none ∧ cr "gnu_debugaltlink_sec" = none)) :
+    (getDwarfInfoCore P again loader f secs relocate followLinks).map DwarfInfo.view
+      = .ok (.mk f.le (f.cls / 8) (P.machineArchOf m) (contentView P.names (unrelocated cr)) none) := by
+  rw [view_of_content_relocated hf hr again loader secs relocate followLinks cr m hm hh hlink hsup,
+    relocatedContent_noReloc _ _ _ _ hnone]
+
+/-- a relocation the standard rejects (symbol index outside the symbol table, wrong REL/RELA flavour
+    for the machine, a type the psABI table does not list, a MIPS64 composite R_MIPS_64) against a
+    debug section — stored in any encoding — makes `get_dwarf_info` fail: no view is produced from
+    half-relocated bytes -/
+theorem reloc_rejected_rejects_file {P : Params} {deflate : Nat → Bytes → Bytes} {f : ElfFile} (hf : FileOk P deflate f)
+    {cfg : ElfCfg} {a : Spec.Arch} (hr : RelocEnv P f cfg a)
+    (again : Option Loader → Bytes → Bool → Bool → V DwarfInfo) (loader : Option Loader)
+    (secs : List Sec) (followLinks : Bool) (kn : String × Bytes × Bool) (hk : kn ∈ P.names) (sec rsec : Sec)
+    (hlink : linkTarget secs loader followLinks = none)
+    (hget : getSectionByName secs (secNameOf (hasSection secs nZdebugInfo) kn) = some sec)
+    (e : Enc) (payload : Bytes) (addr off : Nat)
+    (hst : Stores deflate f.data f.cls f.le sec e payload addr off)
+    (hleg : e.legacy = legacyOf (hasSection secs nZdebugInfo) kn)
+    (r : RelocDesc) (hfind : findRelocations secs sec.name = some rsec)
+    (hrs : RelocStored P deflate f (Proofs.Reloc.relCfgOf cfg) rsec r)
+    (hwf : Spec.WFApply a (Proofs.Reloc.relCfgOf cfg) r.rela r.syms payload.length r.es = true)
+    (hrej : Spec.applyStd a (Proofs.Reloc.relCfgOf cfg) r.rela r.syms payload r.es = none) :
+    ∃ err, getDwarfInfoCore P again loader f secs true followLinks = .error err :=
+  rejected_section_rejects_file P again loader f secs true followLinks kn hk hlink
+    ⟨_, readOne_reloc_rejected hf hr secs _ kn sec rsec hget e payload addr off hst hleg r hfind hrs hwf hrej⟩
+
+/-! ### … whole files (through C01) -/
+
+/-- C01 for `wfZ`, packaged with the by-index lookup `apply_section_relocations` uses for the
+    symbol table (`get_section_exact_z`) -/
+theorem opened_secs_of_wfZ {P : Params} (hP : SpecParams P) (d : Spec.ElfDesc) (bytes : Bytes) (obs : Spec.ElfObs)
+    (hwf : d.wfZ P.env = true) (hl : Spec.Layout d bytes) (ho : d.observe P.env = .ok obs) :
+    ∃ f, Opened P d bytes obs f ∧ OpenedSecs P d bytes obs f := by
+  obtain ⟨f, hopen, hdata, hcls, hle, hS, hh⟩ := C01.open_exact_z P.env d bytes obs hwf hl ho
+  have hsecs := C01.sections_exact_z P.env d bytes obs f hwf hl ho hopen
+  exact ⟨f, ⟨by rw [hP.structs, hP.mclass]; exact hopen, hdata, hcls, hle, hS, hh, hsecs⟩,
+    ⟨hdata, hcls, hle, hS, hh, fun i hi => C01.get_section_exact_z P.env d bytes obs f hwf hl ho hopen i hi⟩⟩
+
+/-- MAIN THEOREM WITH RELOCATIONS, whole-file form, every encoding.
+    `ELFFile(BytesIO(bytes)).get_dwarf_info(relocate_dwarf_sections=relocate)` on ANY byte string that
+    carries a well-formed description storing the content `cr` — debug sections plain, gABI-compressed
+    or `.zdebug`-framed in any mix; relocation and symbol table sections as the description has them
+    (`HoldsRD`: bodies in the description, names by `indexOfName`, the symbol table by `sh_link`) —
+    yields the content with the relocations applied as the psABI of machine `a` prescribes. -/
+theorem view_of_file_relocated {P : Params} {deflate : Nat → Bytes → Bytes} (hP : SpecParams P)
+    (henv : P.env.enumDecode "ENUM_ELFCOMPRESS_TYPE" 1 = some "ELFCOMPRESS_ZLIB") (hz : ZlibOk P.X deflate)
+    (d : Spec.ElfDesc) (bytes : Bytes) (obs : Spec.ElfObs)
+    (hwf : d.wfZ P.env = true) (hl : Spec.Layout d bytes) (ho : d.observe P.env = .ok obs)
+    (hph : hasPhantomBytes obs.header = .ok false)
+    (fuel : Nat) (loader : Option Loader) (relocate followLinks : Bool) (a : Spec.Arch) (cr : ContentR) (m : Val)
+    (hm : obs.header.getField "e_machine" = .ok m) (harch : P.machineArchOf m = Proofs.Reloc.archString a)
+    (hmips : decide (d.mclass = "EM_MIPS") = decide (a = .mips)) {allowed : Enc → Prop}
+    (hh : HoldsRD P.names deflate d obs relocate a cr allowed)
+    (hlink : linkTarget obs.sections loader followLinks = none)
+    (hsup : followLinks = false ∨
+      ((∃ DS, P.dwarfStructsFor ⟨d.le, 32, d.cls / 8, 2⟩ = some DS) ∧
+        cr "debug_sup_sec" = none ∧ cr "gnu_debugaltlink_sec" = none)) :
+    dwarfView P (fuel + 1) loader bytes relocate followLinks
+      = .ok (.mk d.le (d.cls / 8) (P.machineArchOf m)
+          (contentView P.names (relocatedContent a (Proofs.Reloc.relCfgOf d.cfg) relocate cr)) none) := by
+  obtain ⟨f, hop, hops⟩ := opened_secs_of_wfZ hP d bytes obs hwf hl ho
+  exact view_of_opened_relocated hop hops (Proofs.layout_facts hl) ho (Proofs.wfZ_facts hwf).cls henv hz hph fuel loader
+    relocate followLinks a cr m hm harch hmips hh hlink hsup
+
+/-- identical for plain / gABI / `.zdebug` storage, at the level of bytes: two byte strings carrying
+    descriptions of the same class, byte order and machine that store the same content-with-relocations
+    — one, say, plainly (`allowed₁ = Enc.isPlain`), the other with any subset of its debug sections
+    gABI-compressed or `.zdebug`-framed — have the same view, relocations applied -/
+theorem view_relocated_invariant_file {P : Params} {deflate : Nat → Bytes → Bytes} (hP : SpecParams P)
+    (henv : P.env.enumDecode "ENUM_ELFCOMPRESS_TYPE" 1 = some "ELFCOMPRESS_ZLIB") (hz : ZlibOk P.X deflate)
+    (d₁ d₂ : Spec.ElfDesc) (bytes₁ bytes₂ : Bytes) (obs₁ obs₂ : Spec.ElfObs)
+    (hwf₁ : d₁.wfZ P.env = true) (hl₁ : Spec.Layout d₁ bytes₁) (ho₁ : d₁.observe P.env = .ok obs₁)
+    (hwf₂ : d₂.wfZ P.env = true) (hl₂ : Spec.Layout d₂ bytes₂) (ho₂ : d₂.observe P.env = .ok obs₂)
+    (hph₁ : hasPhantomBytes obs₁.header = .ok false) (hph₂ : hasPhantomBytes obs₂.header = .ok false)
+    (hle : d₁.le = d₂.le) (hcls : d₁.cls = d₂.cls) (hmc : d₁.mclass = d₂.mclass) (m : Val)
+    (hm₁ : obs₁.header.getField "e_machine" = .ok m) (hm₂ : obs₂.header.getField "e_machine" = .ok m)
+    (a : Spec.Arch) (harch : P.machineArchOf m = Proofs.Reloc.archString a)
+    (hmips : decide (d₁.mclass = "EM_MIPS") = decide (a = .mips))
+    (fuel₁ fuel₂ : Nat) (loader₁ loader₂ : Option Loader) (relocate followLinks : Bool) (cr : ContentR)
+    {allowed₁ allowed₂ : Enc → Prop}
+    (hh₁ : HoldsRD P.names deflate d₁ obs₁ relocate a cr allowed₁)
+    (hh₂ : HoldsRD P.names deflate d₂ obs₂ relocate a cr allowed₂)
+    (hk₁ : linkTarget obs₁.sections loader₁ followLinks = none)
+    (hk₂ : linkTarget obs₂.sections loader₂ followLinks = none)
+    (hsup : followLinks = false ∨
+      ((∃ DS, P.dwarfStructsFor ⟨d₁.le, 32, d₁.cls / 8, 2⟩ = some DS) ∧
+        cr "debug_sup_sec" = none ∧ cr "gnu_debugaltlink_sec" = none)) :
+    dwarfView P (fuel₁ + 1) loader₁ bytes₁ relocate followLinks
+      = dwarfView P (fuel₂ + 1) loader₂ bytes₂ relocate followLinks := by
+  have hc : Proofs.Reloc.relCfgOf d₁.cfg = Proofs.Reloc.relCfgOf d₂.cfg := relCfgOf_congr d₁.cfg d₂.cfg hle hcls hmc
+  rw [view_of_file_relocated hP henv hz d₁ bytes₁ obs₁ hwf₁ hl₁ ho₁ hph₁ fuel₁ loader₁ relocate followLinks a cr m hm₁ harch
+        hmips hh₁ hk₁ hsup,
+      view_of_file_relocated hP henv hz d₂ bytes₂ obs₂ hwf₂ hl₂ ho₂ hph₂ fuel₂ loader₂ relocate followLinks a cr m hm₂ harch
+        (by rw [← hmc]; exact hmips) hh₂ hk₂ (by rw [← hle, ← hcls]; exact hsup),
+      hle, hcls, hc]
+
+/-- whole-file form of `view_unrelocated` / `view_no_reloc_section`: with `relocate_dwarf_sections=False`,
+    or when no relocation section targets a debug section, the view is the content as written -/
+theorem view_of_file_unrelocated {P : Params} {deflate : Nat → Bytes → Bytes} (hP : SpecParams P)
+    (henv : P.env.enumDecode "ENUM_ELFCOMPRESS_TYPE" 1 = some "ELFCOMPRESS_ZLIB") (hz : ZlibOk P.X deflate)
+    (d : Spec.ElfDesc) (bytes : Bytes) (obs : Spec.ElfObs)
+    (hwf : d.wfZ P.env = true) (hl : Spec.Layout d bytes) (ho : d.observe P.env = .ok obs)
+    (hph : hasPhantomBytes obs.header = .ok false)
+    (fuel : Nat) (loader : Option Loader) (relocate followLinks : Bool) (a : Spec.Arch) (cr : ContentR) (m : Val)
+    (hm : obs.header.getField "e_machine" = .ok m) (harch : P.machineArchOf m = Proofs.Reloc.archString a)
+    (hmips : decide (d.mclass = "EM_MIPS") = decide (a = .mips)) {allowed : Enc → Prop}
+    (hun : relocate = false ∨ ∀ k p addr r, cr k = some (p, addr, r) → r = none)
+    (hh : HoldsRD P.names deflate d obs relocate a cr allowed)
+    (hlink : linkTarget obs.sections loader followLinks = none)
+    (hsup : followLinks = false ∨
+      ((∃ DS, P.dwarfStructsFor ⟨d.le, 32, d.cls / 8, 2⟩ = some DS) ∧
+        cr "debug_sup_sec" = none ∧ cr "gnu_debugaltlink_sec" = none)) :
+    dwarfView P (fuel + 1) loader bytes relocate followLinks
+      = .ok (.mk d.le (d.cls / 8) (P.machineArchOf m) (contentView P.names (unrelocated cr)) none) := by
+  rw [view_of_file_relocated hP henv hz d bytes obs hwf hl ho hph fuel loader relocate followLinks a cr m hm harch hmips hh
+    hlink hsup]
+  rcases hun with h | h
+  · rw [h, relocatedContent_false]
+  · rw [relocatedContent_noReloc _ _ _ _ h]
+
+/-- the relocation-free theorems are the special case `liftContent` (a content without relocations):
+    `HoldsD` gives `HoldsRD`, and the relocated content of a lifted content is the content -/
+theorem holdsD_is_special_case {names : List (String × Bytes × Bool)} {deflate : Nat → Bytes → Bytes} {d : Spec.ElfDesc}
+    {obs : Spec.ElfObs} {relocate : Bool} {content : Content} {allowed : Enc → Prop} (a : Spec.Arch) (c : Spec.RelCfg)
+    (h : HoldsD names deflate d obs relocate content allowed) :
+    HoldsRD names deflate d obs relocate a (liftContent content) allowed ∧
+      relocatedContent a c relocate (liftContent content) = content :=
+  ⟨h.toR a, relocatedContent_liftContent a c relocate content⟩
+
+/-! ## links composed: debug link → compressed debug file → supplementary link → compressed supplementary file -/
+
+/-- the debug link at the level of bytes (through C01): a stripped file whose description has a
+    `.gnu_debuglink` section holding the Spec encoding of (name, crc), a loader with the target,
+    links on — when the target's CRC-32 matches, the result is the target's own view -/
+theorem view_debuglink_ok_desc {P : Params} {deflate : Nat → Bytes → Bytes} (hP : SpecParams P)
+    (d : Spec.ElfDesc) (bytes : Bytes) (obs : Spec.ElfObs)
+    (hwf : d.wfZ P.env = true) (hl : Spec.Layout d bytes) (ho : d.observe P.env = .ok obs)
+    (fuel : Nat) (ld : Loader) (relocate : Bool) (filename ext : Bytes) (crc : Nat)
+    (hdl : DebuglinkD deflate d obs filename crc) (hno : hasDwarfInfo obs.sections true = false)
+    (hfile : ld filename = some ext) (hsum : P.X.crc32 ext = crc) :
+    dwarfView P (fuel + 1) (some ld) bytes relocate true = dwarfView P fuel (some ld) ext relocate true := by
+  obtain ⟨f, hop⟩ := opened_of_wfZ hP d bytes obs hwf hl ho
+  rw [dwarfView_debuglink_desc hop (Proofs.layout_facts hl) ho fuel ld relocate filename ext crc hdl hno hfile]
+  simp [hsum]
+
+/-- … and when it does not match, ELFError -/
+theorem debuglink_bad_crc_rejected_desc {P : Params} {deflate : Nat → Bytes → Bytes} (hP : SpecParams P)
+    (d : Spec.ElfDesc) (bytes : Bytes) (obs : Spec.ElfObs)
+    (hwf : d.wfZ P.env = true) (hl : Spec.Layout d bytes) (ho : d.observe P.env = .ok obs)
+    (fuel : Nat) (ld : Loader) (relocate : Bool) (filename ext : Bytes) (crc : Nat)
+    (hdl : DebuglinkD deflate d obs filename crc) (hno : hasDwarfInfo obs.sections true = false)
+    (hfile : ld filename = some ext) (hsum : P.X.crc32 ext ≠ crc) :
+    dwarfView P (fuel + 1) (some ld) bytes relocate true = .error (.py .elfError) := by
+  obtain ⟨f, hop⟩ := opened_of_wfZ hP d bytes obs hwf hl ho
+  rw [dwarfView_debuglink_desc hop (Proofs.layout_facts hl) ho fuel ld relocate filename ext crc hdl hno hfile]
+  simp [hsum]
+
+/-- the supplementary file end to end at the level of bytes, contents with relocations
+    (generalises `view_with_sup_file`) -/
+theorem view_with_sup_file_relocated {P : Params} {deflate : Nat → Bytes → Bytes} (hP : SpecParams P)
+    (henv : P.env.enumDecode "ENUM_ELFCOMPRESS_TYPE" 1 = some "ELFCOMPRESS_ZLIB") (hz : ZlibOk P.X deflate)
+    (d dS : Spec.ElfDesc) (bytes bytesS : Bytes) (obs obsS : Spec.ElfObs)
+    (hwf : d.wfZ P.env = true) (hl : Spec.Layout d bytes) (ho : d.observe P.env = .ok obs)
+    (hwfS : dS.wfZ P.env = true) (hlS : Spec.Layout dS bytesS) (hoS : dS.observe P.env = .ok obsS)
+    (hph : hasPhantomBytes obs.header = .ok false) (hphS : hasPhantomBytes obsS.header = .ok false)
+    (hk1 : "debug_sup_sec" ∈ P.names.map (·.1)) (hk2 : "gnu_debugaltlink_sec" ∈ P.names.map (·.1))
+    (hDS : ∃ DS, P.dwarfStructsFor ⟨d.le, 32, d.cls / 8, 2⟩ = some DS ∧
+      DS.Dwarf_debugaltlink = altlinkCon ∧ DS.Dwarf_debugsup = debugsupCon d.le)
+    (hDSS : ∃ DS, P.dwarfStructsFor ⟨dS.le, 32, dS.cls / 8, 2⟩ = some DS ∧
+      DS.Dwarf_debugaltlink = altlinkCon ∧ DS.Dwarf_debugsup = debugsupCon dS.le)
+    (fuel : Nat) (ld : Loader) (relocate : Bool) (a aS : Spec.Arch) (cr crS : ContentR) (m mS : Val)
+    (hm : obs.header.getField "e_machine" = .ok m) (hmS : obsS.header.getField "e_machine" = .ok mS)
+    (harch : P.machineArchOf m = Proofs.Reloc.archString a) (harchS : P.machineArchOf mS = Proofs.Reloc.archString aS)
+    (hmips : decide (d.mclass = "EM_MIPS") = decide (a = .mips))
+    (hmipsS : decide (dS.mclass = "EM_MIPS") = decide (aS = .mips))
+    {allowed allowedS : Enc → Prop}
+    (hh : HoldsRD P.names deflate d obs relocate a cr allowed)
+    (hhS : HoldsRD P.names deflate dS obsS true aS crS allowedS)
+    (hlink : linkTarget obs.sections (some ld) true = none)
+    (path : Bytes) (hsl : SupLink d.le (relocatedContent a (Proofs.Reloc.relCfgOf d.cfg) relocate cr) (some path))
+    (hld : ld path = some bytesS)
+    (pS : Option Bytes) (hslS : SupLink dS.le (relocatedContent aS (Proofs.Reloc.relCfgOf dS.cfg) true crS) pS) :
+    dwarfView P (fuel + 2) (some ld) bytes relocate true
+      = .ok (.mk d.le (d.cls / 8) (P.machineArchOf m)
+          (contentView P.names (relocatedContent a (Proofs.Reloc.relCfgOf d.cfg) relocate cr))
+          (some (.mk dS.le (dS.cls / 8) (P.machineArchOf mS)
+            (contentView P.names (relocatedContent aS (Proofs.Reloc.relCfgOf dS.cfg) true crS)) none))) := by
+  obtain ⟨f, hop, hops⟩ := opened_secs_of_wfZ hP d bytes obs hwf hl ho
+  obtain ⟨fs, hopS, hopsS⟩ := opened_secs_of_wfZ hP dS bytesS obsS hwfS hlS hoS
+  exact view_with_sup_opened_relocated hop hops hopS hopsS (Proofs.layout_facts hl) ho (Proofs.layout_facts hlS) hoS
+    (Proofs.wfZ_facts hwf).cls (Proofs.wfZ_facts hwfS).cls henv hz hph hphS hk1 hk2 hDS hDSS fuel ld relocate a aS cr crS
+    m mS hm hmS harch harchS hmips hmipsS hh hhS hlink path hsl hld pS hslS
+
+/-- THE LINKS COMPOSED.  Three byte strings:
+      `bytes₀`  carries a stripped description (no debug-info section in either naming) with a
+                `.gnu_debuglink` holding the Spec encoding of (`lname`, `crc`);
+      `bytesD`  — what the loader has under `lname`, with CRC-32 `crc` — carries a description storing
+                the content `crD` in ANY mix of encodings (plain, gABI-compressed, `.zdebug`), which
+                names a supplementary file `path` (`.gnu_debugaltlink`, or `.debug_sup` with
+                `is_supplementary = 0`);
+      `bytesS`  — what the loader has under `path` — carries a description storing `crS`, again in any
+                mix of encodings.
+    `ELFFile(BytesIO(bytes₀), loader).get_dwarf_info(relocate_dwarf_sections=relocate)` yields the view
+    of the DEBUG file: its content (relocated as asked) with the supplementary file's content
+    (relocated: the supplementary file is opened with the defaults) attached — the same view
+    `view_with_sup_file_relocated` gives for opening `bytesD` directly.  (`hlinkD`: the debug file has
+    debug info of its own or no further debug link, so the chain ends there.) -/
+theorem view_composed_links {P : Params} {deflate : Nat → Bytes → Bytes} (hP : SpecParams P)
+    (henv : P.env.enumDecode "ENUM_ELFCOMPRESS_TYPE" 1 = some "ELFCOMPRESS_ZLIB") (hz : ZlibOk P.X deflate)
+    (d₀ dD dS : Spec.ElfDesc) (bytes₀ bytesD bytesS : Bytes) (obs₀ obsD obsS : Spec.ElfObs)
+    (hwf₀ : d₀.wfZ P.env = true) (hl₀ : Spec.Layout d₀ bytes₀) (ho₀ : d₀.observe P.env = .ok obs₀)
+    (hwfD : dD.wfZ P.env = true) (hlD : Spec.Layout dD bytesD) (hoD : dD.observe P.env = .ok obsD)
+    (hwfS : dS.wfZ P.env = true) (hlS : Spec.Layout dS bytesS) (hoS : dS.observe P.env = .ok obsS)
+    (hphD : hasPhantomBytes obsD.header = .ok false) (hphS : hasPhantomBytes obsS.header = .ok false)
+    (hk1 : "debug_sup_sec" ∈ P.names.map (·.1)) (hk2 : "gnu_debugaltlink_sec" ∈ P.names.map (·.1))
+    (hDSD : ∃ DS, P.dwarfStructsFor ⟨dD.le, 32, dD.cls / 8, 2⟩ = some DS ∧
+      DS.Dwarf_debugaltlink = altlinkCon ∧ DS.Dwarf_debugsup = debugsupCon dD.le)
+    (hDSS : ∃ DS, P.dwarfStructsFor ⟨dS.le, 32, dS.cls / 8, 2⟩ = some DS ∧
+      DS.Dwarf_debugaltlink = altlinkCon ∧ DS.Dwarf_debugsup = debugsupCon dS.le)
+    (fuel : Nat) (ld : Loader) (relocate : Bool)
+    -- the debug link of the stripped file
+    (lname : Bytes) (crc : Nat) (hdl : DebuglinkD deflate d₀ obs₀ lname crc)
+    (hno : hasDwarfInfo obs₀.sections true = false)
+    (hldD : ld lname = some bytesD) (hsum : P.X.crc32 bytesD = crc)
+    -- the debug file and the supplementary file
+    (aD aS : Spec.Arch) (crD crS : ContentR) (mD mS : Val)
+    (hmD : obsD.header.getField "e_machine" = .ok mD) (hmS : obsS.header.getField "e_machine" = .ok mS)
+    (harchD : P.machineArchOf mD = Proofs.Reloc.archString aD) (harchS : P.machineArchOf mS = Proofs.Reloc.archString aS)
+    (hmipsD : decide (dD.mclass = "EM_MIPS") = decide (aD = .mips))
+    (hmipsS : decide (dS.mclass = "EM_MIPS") = decide (aS = .mips))
+    {allowedD allowedS : Enc → Prop}
+    (hhD : HoldsRD P.names deflate dD obsD relocate aD crD allowedD)
+    (hhS : HoldsRD P.names deflate dS obsS true aS crS allowedS)
+    (hlinkD : linkTarget obsD.sections (some ld) true = none)
+    (path : Bytes) (hsl : SupLink dD.le (relocatedContent aD (Proofs.Reloc.relCfgOf dD.cfg) relocate crD) (some path))
+    (hldS : ld path = some bytesS)
+    (pS : Option Bytes) (hslS : SupLink dS.le (relocatedContent aS (Proofs.Reloc.relCfgOf dS.cfg) true crS) pS) :
+    dwarfView P (fuel + 3) (some ld) bytes₀ relocate true
+      = .ok (.mk dD.le (dD.cls / 8) (P.machineArchOf mD)
+          (contentView P.names (relocatedContent aD (Proofs.Reloc.relCfgOf dD.cfg) relocate crD))
+          (some (.mk dS.le (dS.cls / 8) (P.machineArchOf mS)
+            (contentView P.names (relocatedContent aS (Proofs.Reloc.relCfgOf dS.cfg) true crS)) none))) := by
+  rw [view_debuglink_ok_desc hP d₀ bytes₀ obs₀ hwf₀ hl₀ ho₀ (fuel + 2) ld relocate lname bytesD crc hdl hno hldD hsum]
+  exact view_with_sup_file_relocated hP henv hz dD dS bytesD bytesS obsD obsS hwfD hlD hoD hwfS hlS hoS hphD hphS hk1 hk2
+    hDSD hDSS fuel ld relocate aD aS crD crS mD mS hmD hmS harchD harchS hmipsD hmipsS hhD hhS hlinkD path hsl hldS pS hslS
+
+/-- the composed chain does not depend on how the two files are stored: any two debug files (and any
+    two supplementary files) of the same configuration storing the same contents give the same view
+    through the link (corollary of `view_composed_links`, both sides rewritten) — stated here for
+    the debug file -/
+theorem view_composed_links_invariant {P : Params} {deflate : Nat → Bytes → Bytes} (hP : SpecParams P)
+    (henv : P.env.enumDecode "ENUM_ELFCOMPRESS_TYPE" 1 = some "ELFCOMPRESS_ZLIB") (hz : ZlibOk P.X deflate)
+    (d₀ d₀' dD dD' dS : Spec.ElfDesc) (bytes₀ bytes₀' bytesD bytesD' bytesS : Bytes) (obs₀ obs₀' obsD obsD' obsS : Spec.ElfObs)
+    (hwf₀ : d₀.wfZ P.env = true) (hl₀ : Spec.Layout d₀ bytes₀) (ho₀ : d₀.observe P.env = .ok obs₀)
+    (hwf₀' : d₀'.wfZ P.env = true) (hl₀' : Spec.Layout d₀' bytes₀') (ho₀' : d₀'.observe P.env = .ok obs₀')
+    (hwfD : dD.wfZ P.env = true) (hlD : Spec.Layout dD bytesD) (hoD : dD.observe P.env = .ok obsD)
+    (hwfD' : dD'.wfZ P.env = true) (hlD' : Spec.Layout dD' bytesD') (hoD' : dD'.observe P.env = .ok obsD')
+    (hwfS : dS.wfZ P.env = true) (hlS : Spec.Layout dS bytesS) (hoS : dS.observe P.env = .ok obsS)
+    (hphD : hasPhantomBytes obsD.header = .ok false) (hphD' : hasPhantomBytes obsD'.header = .ok false)
+    (hphS : hasPhantomBytes obsS.header = .ok false)
+    (hk1 : "debug_sup_sec" ∈ P.names.map (·.1)) (hk2 : "gnu_debugaltlink_sec" ∈ P.names.map (·.1))
+    (hDSD : ∃ DS, P.dwarfStructsFor ⟨dD.le, 32, dD.cls / 8, 2⟩ = some DS ∧
+      DS.Dwarf_debugaltlink = altlinkCon ∧ DS.Dwarf_debugsup = debugsupCon dD.le)
+    (hDSS : ∃ DS, P.dwarfStructsFor ⟨dS.le, 32, dS.cls / 8, 2⟩ = some DS ∧
+      DS.Dwarf_debugaltlink = altlinkCon ∧ DS.Dwarf_debugsup = debugsupCon dS.le)
+    (hle : dD.le = dD'.le) (hcls : dD.cls = dD'.cls) (hmc : dD.mclass = dD'.mclass)
+    (fuel fuel' : Nat) (ld ld' : Loader) (relocate : Bool)
+    (lname lname' : Bytes) (crc crc' : Nat) (hdl : DebuglinkD deflate d₀ obs₀ lname crc)
+    (hdl' : DebuglinkD deflate d₀' obs₀' lname' crc')
+    (hno : hasDwarfInfo obs₀.sections true = false) (hno' : hasDwarfInfo obs₀'.sections true = false)
+    (hldD : ld lname = some bytesD) (hsum : P.X.crc32 bytesD = crc)
+    (hldD' : ld' lname' = some bytesD') (hsum' : P.X.crc32 bytesD' = crc')
+    (aD aS : Spec.Arch) (crD crS : ContentR) (mD mS : Val)
+    (hmD : obsD.header.getField "e_machine" = .ok mD) (hmD' : obsD'.header.getField "e_machine" = .ok mD)
+    (hmS : obsS.header.getField "e_machine" = .ok mS)
+    (harchD : P.machineArchOf mD = Proofs.Reloc.archString aD) (harchS : P.machineArchOf mS = Proofs.Reloc.archString aS)
+    (hmipsD : decide (dD.mclass = "EM_MIPS") = decide (aD = .mips))
+    (hmipsS : decide (dS.mclass = "EM_MIPS") = decide (aS = .mips))
+    {allowedD allowedD' allowedS : Enc → Prop}
+    (hhD : HoldsRD P.names deflate dD obsD relocate aD crD allowedD)
+    (hhD' : HoldsRD P.names deflate dD' obsD' relocate aD crD allowedD')
+    (hhS : HoldsRD P.names deflate dS obsS true aS crS allowedS)
+    (hlinkD : linkTarget obsD.sections (some ld) true = none) (hlinkD' : linkTarget obsD'.sections (some ld') true = none)
+    (path : Bytes) (hsl : SupLink dD.le (relocatedContent aD (Proofs.Reloc.relCfgOf dD.cfg) relocate crD) (some path))
+    (hldS : ld path = some bytesS) (hldS' : ld' path = some bytesS)
+    (pS : Option Bytes) (hslS : SupLink dS.le (relocatedContent aS (Proofs.Reloc.relCfgOf dS.cfg) true crS) pS) :
+    dwarfView P (fuel + 3) (some ld) bytes₀ relocate true = dwarfView P (fuel' + 3) (some ld') bytes₀' relocate true := by
+  have hc : Proofs.Reloc.relCfgOf dD.cfg = Proofs.Reloc.relCfgOf dD'.cfg := relCfgOf_congr dD.cfg dD'.cfg hle hcls hmc
+  rw [view_composed_links hP henv hz d₀ dD dS bytes₀ bytesD bytesS obs₀ obsD obsS hwf₀ hl₀ ho₀ hwfD hlD hoD hwfS hlS hoS
+        hphD hphS hk1 hk2 hDSD hDSS fuel ld relocate lname crc hdl hno hldD hsum aD aS crD crS mD mS hmD hmS harchD harchS
+        hmipsD hmipsS hhD hhS hlinkD path hsl hldS pS hslS,
+      view_composed_links hP henv hz d₀' dD' dS bytes₀' bytesD' bytesS obs₀' obsD' obsS hwf₀' hl₀' ho₀' hwfD' hlD' hoD' hwfS
+        hlS hoS hphD' hphS hk1 hk2 (by rw [← hle, ← hcls]; exact hDSD) hDSS fuel' ld' relocate lname' crc' hdl' hno' hldD'
+        hsum' aD aS crD crS mD mS hmD' hmS harchD harchS (by rw [← hmc]; exact hmipsD) hmipsS hhD' hhS hlinkD' path
+        (by rw [← hle, ← hc]; exact hsl) hldS' pS hslS,
+      hle, hcls, hc]
+
+/-! ## the checksum of the debug link is computed in chunks
+
+  `_file_crc32` reads the linked file 4096 bytes at a time and folds `binascii.crc32(chunk, running)`
+  (Model/DwarfViewCrc.lean).  The ONLY assumption on CRC-32 is the streaming law `CrcStreaming`:
+  `crc (a ++ b) init = crc b (crc a init)`. -/
+
+/-- the chunked fold equals the one-shot CRC of the whole file, for every chunk size `n > 0`
+    (an empty file is never fed to `crc`: its checksum is the preset 0) -/
+theorem file_crc32_chunked {crc : Bytes → Nat → Nat} (h : CrcStreaming crc) (n : Nat) (hn : 0 < n) (data : Bytes) :
+    fileCrc32 crc n data = if data = [] then 0 else crc data 0 :=
+  fileCrc32_eq_oneshot h n hn data
+
+/-- … so the chunk size is immaterial (4096 in the source) -/
+theorem file_crc32_chunk_size_irrelevant {crc : Bytes → Nat → Nat} (h : CrcStreaming crc) (n₁ n₂ : Nat)
+    (h₁ : 0 < n₁) (h₂ : 0 < n₂) (data : Bytes) : fileCrc32 crc n₁ data = fileCrc32 crc n₂ data :=
+  fileCrc32_chunk_irrelevant h n₁ n₂ h₁ h₂ data
+
+/-- with the externals built from the streaming primitive (`extOfStreaming`: what the code does),
+    the debug link is accepted exactly when the ONE-SHOT CRC-32 of the target is the recorded one —
+    the hypothesis `hsum` of `view_debuglink_ok` / `debuglink_bad_crc_rejected` and their `_desc` forms -/
+theorem debuglink_check_is_oneshot_crc {crc : Bytes → Nat → Nat} (h : CrcStreaming crc)
+    (decompress : Bytes → Nat → Option Bytes) (ext : Bytes) (recorded : Nat) :
+    (extOfStreaming decompress crc).crc32 ext = recorded ↔ (if ext = [] then 0 else crc ext 0) = recorded := by
+  show fileCrc32 crc 4096 ext = recorded ↔ _
+  rw [fileCrc32_eq_oneshot h 4096 (by decide)]
+
+/-- the CRC-32 of the GDB manual (Spec/ContainerCrc.lean) satisfies the law and maps nothing to 0:
+    with it, `_file_crc32` IS that CRC-32 of the file, for every chunk size -/
+theorem file_crc32_spec (n : Nat) (hn : 0 < n) (data : Bytes) :
+    fileCrc32 (fun d init => Spec.C11.crc32 d init) n data = Spec.C11.crc32 data :=
+  fileCrc32_eq_oneshot' spec_crc32_streaming spec_crc32_nil n hn data
+
 /-! ### the Spec bundles satisfy the structural hypotheses -/
 
 theorem spec_structs_ok (c : ElfCfg) :
@@ -661,5 +1117,148 @@ example : HoldsD sectionNames (fun _ x => x) (exDesc nDebugInfo (gabiBody 32 tru
 example : SupLink true (fun k => if k = "gnu_debugaltlink_sec" then some (encAltlink [0x61] (List.replicate 20 7) ++ [], 0) else none)
     (some [0x61]) :=
   .altlink [0x61] (List.replicate 20 7) [] 0 (by simp) (by simp) (by simp) (by simp)
+
+
+/-! non-vacuity of the relocation-aware hypotheses: an x86-64 description whose debug section
+    (12 bytes) is targeted by a RELA section with one R_X86_64_PC32 entry against symbol 1 of a
+    two-entry symbol table — stored plainly, gABI-compressed and `.zdebug`-framed -/
+
+private def exShdr64 (ty flags off size link entsize : Nat) : Fields :=
+  [("sh_type", .int ty), ("sh_flags", .int flags), ("sh_addr", .int 0), ("sh_offset", .int off), ("sh_size", .int size),
+   ("sh_link", .int link), ("sh_info", .int 0), ("sh_addralign", .int 1), ("sh_entsize", .int entsize)]
+
+private def exObsHdr64 (nm : Nat) (tyName : String) (flags off size link entsize : Nat) : Val :=
+  .record [("sh_name", .int nm), ("sh_type", .str tyName), ("sh_flags", .int flags), ("sh_addr", .int 0),
+    ("sh_offset", .int off), ("sh_size", .int size), ("sh_link", .int link), ("sh_info", .int 0),
+    ("sh_addralign", .int 1), ("sh_entsize", .int entsize)]
+
+private def exRelCfg : Spec.RelCfg := ⟨true, 64, false⟩
+private def exRel : RelocDesc := ⟨true, [{ offset := 8, sym := 1, type := 2, addend := -4 }], [0, 0x1000]⟩
+private def exPayload : Bytes := [0, 0, 0, 0, 0xaa, 0xaa, 0xaa, 0xaa, 1, 2, 3, 4]
+private def exRelBody : Bytes := Spec.encRelTable exRelCfg exRel.rela exRel.es
+private def exSymBody : Bytes := Proofs.Reloc.encSymTable true 64 exRel.syms
+private def nStrtab : Bytes := [0x2e, 0x73, 0x74, 0x72, 0x74, 0x61, 0x62]
+private def nSymtab : Bytes := [0x2e, 0x73, 0x79, 0x6d, 0x74, 0x61, 0x62]
+
+/-- null, `.shstrtab`, the debug section `name` (body `body`, flags `flags`) at 0x200, `.strtab`,
+    `.symtab` (→ `.strtab`) at 0x340, `.rela<name>` (→ `.symtab`) at 0x380; section headers at 0x400 -/
+private def exDescR (name body : Bytes) (flags : Nat) : Spec.ElfDesc :=
+  { cls := 64, le := true, mclass := "EM_X86_64", solaris := false, core := false,
+    ehdr := [("EI_VERSION", .int 1), ("e_type", .int 1), ("e_machine", .int 62), ("e_version", .int 1), ("e_ehsize", .int 64)],
+    shoff := 0x400, phoff := 0, shentsize := 64, phentsize := 0,
+    sections := [⟨[], exShdr64 0 0 0 0 0 0, none, 0⟩,
+                 ⟨exShstrtab, exShdr64 3 0 0x100 (33 + 2 * name.length) 0 0,
+                   some ([0] ++ exShstrtab ++ [0] ++ name ++ [0] ++ nStrtab ++ [0] ++ nSymtab ++ [0] ++ (nRela ++ name) ++ [0]), 1⟩,
+                 ⟨name, exShdr64 1 flags 0x200 body.length 0 0, some body, 11⟩,
+                 ⟨nStrtab, exShdr64 3 0 0x300 1 0 0, some [0], 12 + name.length⟩,
+                 ⟨nSymtab, exShdr64 2 0 0x340 48 3 24, some exSymBody, 20 + name.length⟩,
+                 ⟨nRela ++ name, exShdr64 4 0 0x380 24 4 24, some exRelBody, 28 + name.length⟩],
+    segments := [], shstrndx := 1 }
+
+/-- what `observe` reports for its sections (checked by the `#guard` below) -/
+private def exObsR (name : Bytes) (bodyLen flags : Nat) : Spec.ElfObs :=
+  ⟨.none, [("NullSection", [], exObsHdr64 0 "SHT_NULL" 0 0 0 0 0),
+           ("StringTableSection", exShstrtab, exObsHdr64 1 "SHT_STRTAB" 0 0x100 (33 + 2 * name.length) 0 0),
+           ("Section", name, exObsHdr64 11 "SHT_PROGBITS" flags 0x200 bodyLen 0 0),
+           ("StringTableSection", nStrtab, exObsHdr64 (12 + name.length) "SHT_STRTAB" 0 0x300 1 0 0),
+           ("SymbolTableSection", nSymtab, exObsHdr64 (20 + name.length) "SHT_SYMTAB" 0 0x340 48 3 24),
+           ("RelocationSection", nRela ++ name, exObsHdr64 (28 + name.length) "SHT_RELA" 0 0x380 24 4 24)], []⟩
+
+private def exCR : ContentR := fun k => if k = "debug_info_sec" then some (exPayload, 0, some exRel) else none
+
+/-- the relocation is in C08's domain and is not rejected; the relocated bytes -/
+example : Spec.WFApply .x64 exRelCfg exRel.rela exRel.syms exPayload.length exRel.es = true := by decide
+example : relocatedContent .x64 exRelCfg true exCR "debug_info_sec"
+    = some ([0, 0, 0, 0, 0xaa, 0xaa, 0xaa, 0xaa, 0xf4, 0x0f, 0, 0], 0) := by decide
+example : relocatedContent .x64 exRelCfg false exCR "debug_info_sec" = some (exPayload, 0) := by decide
+
+/-- the descriptions are well formed (`wfZ`), assemble, and are observed as `exObsR` says: plain,
+    gABI-compressed, `.zdebug` (evaluated at build time: `Con.encodeRaw`/`decodeRaw` do not reduce in the kernel) -/
+private def exOk (name body : Bytes) (flags : Nat) : Bool :=
+  let d := exDescR name body flags
+  d.wfZ elfEnv && (d.assemble 0).isSome &&
+    (match d.observe elfEnv with
+     | .ok o => o.sections.length == 6 &&
+         (o.sections.zip (exObsR name body.length flags).sections).all fun (x, y) =>
+           x.1 == y.1 && x.2.1 == y.2.1 && toString (repr x.2.2) == toString (repr y.2.2)
+     | .error _ => false)
+#guard exOk nDebugInfo exPayload 0
+#guard exOk nDebugInfo (gabiBody 64 true 12 1 exPayload) 0x800
+#guard exOk nZdebugInfo (zdebugBody 12 exPayload) 0
+
+theorem exRelLen :
+    (Spec.encRelTable (Proofs.Reloc.relCfgOf ⟨true, 64, "EM_X86_64", false, false⟩) exRel.rela exRel.es).length = 24 := by
+  decide +kernel
+
+theorem exRelocStoredD (name : Bytes) (bodyLen flags : Nat) (body : Bytes) :
+    RelocStoredD (fun _ x => x) (exDescR name body flags) (exObsR name bodyLen flags)
+      ("RelocationSection", nRela ++ name, exObsHdr64 (28 + name.length) "SHT_RELA" 0 0x380 24 4 24) exRel := by
+  refine ⟨5, 4, _, _, _, 0, 0x380, 0, 0x340, rfl, rfl, rfl, rfl, ?_, rfl, rfl, rfl, rfl,
+    (by show ∀ s ∈ [0, 0x1000], s < 2 ^ 64; decide), ?_⟩
+  · refine ⟨.str "SHT_RELA", 0, rfl, rfl, rfl, rfl, ?_, rfl, rfl, ?_, by simp [Enc.ok]⟩
+    · show Val.getNat _ "sh_size" = .ok (Spec.encRelTable (Proofs.Reloc.relCfgOf ⟨true, 64, "EM_X86_64", false, false⟩)
+        exRel.rela exRel.es).length
+      rw [exRelLen]; rfl
+    · show 896 + (Spec.encRelTable (Proofs.Reloc.relCfgOf ⟨true, 64, "EM_X86_64", false, false⟩)
+        exRel.rela exRel.es).length < 2 ^ 63
+      rw [exRelLen]; decide
+  · exact ⟨.str "SHT_SYMTAB", 0, rfl, rfl, rfl, rfl, rfl, rfl, rfl, by show 832 + 48 < 2 ^ 63; decide, by simp [Enc.ok]⟩
+
+/-- `.debug_info` stored plainly, with its `.rela.debug_info` -/
+example : HoldsRD sectionNames (fun _ x => x) (exDescR nDebugInfo exPayload 0) (exObsR nDebugInfo 12 0) true .x64
+    exCR Enc.isPlain := by
+  intro kn hk
+  simp only [sectionNames, List.mem_cons, List.not_mem_nil, or_false] at hk
+  rcases hk with rfl | rfl | rfl | rfl | rfl | rfl | rfl | rfl | rfl | rfl | rfl | rfl | rfl | rfl | rfl | rfl | rfl | rfl | rfl
+  · refine ⟨2, _, _, .plain, 0x200, by decide +kernel, rfl, rfl, ?_, by decide +kernel, trivial, Or.inr ?_⟩
+    · exact ⟨.str "SHT_PROGBITS", 0, rfl, rfl, rfl, rfl, rfl, rfl, rfl, by decide, by simp [Enc.ok]⟩
+    · exact ⟨_, rfl, exRelocStoredD nDebugInfo 12 0 exPayload, by decide +kernel, by decide +kernel⟩
+  all_goals (simp only [exCR, String.reduceEq, if_false]; decide +kernel)
+
+/-- the same content as a SHF_COMPRESSED `.debug_info` behind an `Elf64_Chdr`, same `.rela.debug_info` -/
+example : HoldsRD sectionNames (fun _ x => x) (exDescR nDebugInfo (gabiBody 64 true 12 1 exPayload) 0x800)
+    (exObsR nDebugInfo 36 0x800) true .x64 exCR Enc.isPlainOrGabi := by
+  intro kn hk
+  simp only [sectionNames, List.mem_cons, List.not_mem_nil, or_false] at hk
+  rcases hk with rfl | rfl | rfl | rfl | rfl | rfl | rfl | rfl | rfl | rfl | rfl | rfl | rfl | rfl | rfl | rfl | rfl | rfl | rfl
+  · refine ⟨2, _, _, .gabi 6 1, 0x200, by decide +kernel, rfl, rfl, ?_, by decide +kernel, trivial, Or.inr ?_⟩
+    · exact ⟨.str "SHT_PROGBITS", 0x800, rfl, rfl, rfl, rfl, rfl, rfl, rfl, by decide, by simp [Enc.ok, exDescR, exPayload]⟩
+    · exact ⟨_, rfl, exRelocStoredD nDebugInfo 36 0x800 _, by decide +kernel, by decide +kernel⟩
+  all_goals (simp only [exCR, String.reduceEq, if_false]; decide +kernel)
+
+/-- the same content as `.zdebug_info` in the legacy framing, with `.rela.zdebug_info` (what
+    binutils' `--compress-debug-sections=zlib-gnu` leaves in a relocatable object) -/
+example : HoldsRD sectionNames (fun _ x => x) (exDescR nZdebugInfo (zdebugBody 12 exPayload) 0)
+    (exObsR nZdebugInfo 24 0) true .x64 exCR Enc.isPlainOrZdebug := by
+  intro kn hk
+  simp only [sectionNames, List.mem_cons, List.not_mem_nil, or_false] at hk
+  rcases hk with rfl | rfl | rfl | rfl | rfl | rfl | rfl | rfl | rfl | rfl | rfl | rfl | rfl | rfl | rfl | rfl | rfl | rfl | rfl
+  · refine ⟨2, _, _, .zdebug 6, 0x200, by decide +kernel, rfl, rfl, ?_, by decide +kernel, trivial, Or.inr ?_⟩
+    · exact ⟨.str "SHT_PROGBITS", 0, rfl, rfl, rfl, rfl, rfl, rfl, rfl, by decide, by simp [Enc.ok, exPayload]⟩
+    · exact ⟨_, rfl, exRelocStoredD nZdebugInfo 24 0 _, by decide +kernel, by decide +kernel⟩
+  all_goals (simp only [exCR, String.reduceEq, if_false]; decide +kernel)
+
+/-- the machine hypotheses: with the reader's own architecture map, EM_X86_64 is `x64` -/
+example : Reloc.machineArchOf (.str "EM_X86_64") = Proofs.Reloc.archString .x64 := by decide
+example : decide ((exDescR nDebugInfo exPayload 0).mclass = "EM_MIPS") = decide (Spec.Arch.x64 = .mips) := by decide
+
+/-- a stripped description with a `.gnu_debuglink` naming `ab` with CRC 0x01020304 -/
+example : DebuglinkD (fun _ x => x) (exDesc nGnuDebuglink (encDebuglink true [0x61, 0x62] 0x01020304) 0)
+    (exObs nGnuDebuglink (encDebuglink true [0x61, 0x62] 0x01020304) 0) [0x61, 0x62] 0x01020304 := by
+  refine ⟨2, _, _, 0, 96, [], by decide +kernel, rfl, rfl, ?_, by decide, by decide⟩
+  exact ⟨.str "SHT_PROGBITS", 0, rfl, rfl, rfl, rfl, rfl, rfl, rfl, by decide, by simp [Enc.ok]⟩
+example : hasDwarfInfo (exObs nGnuDebuglink (encDebuglink true [0x61, 0x62] 0x01020304) 0).sections true = false := by
+  decide +kernel
+
+/-- a content with relocations naming a supplementary file: the link sections carry no relocations -/
+example : SupLink true (relocatedContent .x64 exRelCfg true
+      (fun k => if k = "gnu_debugaltlink_sec" then some (encAltlink [0x61] (List.replicate 20 7) ++ [], 0, none) else exCR k))
+    (some [0x61]) :=
+  .altlink [0x61] (List.replicate 20 7) [] 0 (by decide) (by decide) (by simp) (by simp)
+
+/-- the streaming law is satisfiable: the CRC-32 of the GDB manual (`spec_crc32_streaming`) -/
+example : CrcStreaming (fun d init => Spec.C11.crc32 d init) := spec_crc32_streaming
+example : fileCrc32 (fun d init => Spec.C11.crc32 d init) 4 [0x31, 0x32, 0x33, 0x34, 0x35, 0x36, 0x37, 0x38, 0x39] = 0xCBF43926 := by
+  rw [file_crc32_spec 4 (by decide)]; decide +kernel
 
 end PyElf.Props.C11
